@@ -270,20 +270,28 @@ def assemble(crate, meta, failed, outdir, max_events=40000):
 def miri_run(crate, meta, outdir, log=print, jobs=8):
     """execute every binary of a (small) corpus crate under Miri; returns (shards, aborts).  A case that does not
     build under Miri is a tool error: the Miri corpus consists of shapes that the main corpus has already built."""
+    # cases that do not compile on this tree become compile_fail events like in the main corpus
+    # (ordinary stable build, attribution by line); only the binaries that build are interpreted
+    failed = build_corpus(crate, meta, log)
+    for i in failed:
+        failed[i]["bare_ok"] = True
     env = cargo_env()
     env["CARGO_TARGET_DIR"] = os.path.join(WORK, "target-miri")
     env["MIRIFLAGS"] = "-Zmiri-disable-isolation"
     os.makedirs(outdir, exist_ok=True)
     t0 = time.time()
+    live = [b for b in meta["bins"] if any(c["id"] not in failed for c in b["cases"])]
     # build once (first binary), then run all in parallel
     def one(b):
         return run_bin(None, os.path.join(crate, b["script"]), os.path.join(outdir, b["name"] + ".raw"), timeout=1500,
                        runner=["cargo", "+nightly", "miri", "run", "--offline", "-q", "--bin", b["name"], "--"], cwd=crate, env=env)
-    first = one(meta["bins"][0])
-    with ThreadPoolExecutor(jobs) as ex:
-        aborts = first + sum(ex.map(one, meta["bins"][1:]))
-    log(f"miri: ran {len(meta['bins'])} bins in {time.time() - t0:.1f}s, {aborts} aborts")
-    shards = assemble(crate, meta, {}, outdir)
+    aborts = 0
+    if live:
+        aborts = one(live[0])
+        with ThreadPoolExecutor(jobs) as ex:
+            aborts += sum(ex.map(one, live[1:]))
+    log(f"miri: ran {len(live)} bins in {time.time() - t0:.1f}s, {aborts} aborts, {len(failed)} cases do not build")
+    shards = assemble(crate, meta, failed, outdir)
     return shards, aborts
 
 
